@@ -343,6 +343,20 @@ func execC10Hostile(p *drv.Plan) *Out {
 	// ... fed to Add/Commit"): a rejected Add must leave the importer as it was,
 	// so that whatever is committed in the end holds every node that was accepted.
 	persistent := drv.SubRand(p, "c10-persistent").Chance(1, 2)
+	goOnAfterFailedCommit := persistent && drv.SubRand(p, "c10-after-failed-commit").Chance(1, 4)
+	bigStream := func() []*iavl.ExportNode {
+		out.Probes["hostile.big-stream-after-failed-commit"]++
+		t := ref.NewTree()
+		for i := 0; i < 5200; i++ {
+			t.Set([]byte(fmt.Sprintf("zz-big-%05d", (i*7919)%5200)), []byte("b"))
+		}
+		v, _ := t.Commit()
+		var ns []*iavl.ExportNode
+		for _, e := range ref.Export(t.Roots[v]) {
+			ns = append(ns, &iavl.ExportNode{Key: e.Key, Value: e.Value, Version: 1, Height: e.Height})
+		}
+		return ns
+	}
 	acceptedLeaves, addErrors := int64(0), 0
 	done := make(chan *drv.Violation, 1)
 	go func() {
@@ -372,6 +386,15 @@ func execC10Hostile(p *drv.Plan) *Out {
 			}
 			if commitErr = imp.Commit(); commitErr == nil {
 				committed = true
+			} else if goOnAfterFailedCommit {
+				// "all finite sequences fed to Add/Commit": after a failed Commit
+				// the caller feeds a well-formed stream large enough (>10 000
+				// nodes) for the importer to flush a batch of its own, then
+				// closes. Whatever the failed Commit left pending must not become
+				// visible that way (seed C10-4A).
+				for _, n := range bigStream() {
+					_ = add(n)
+				}
 			}
 			return nil
 		})
